@@ -91,6 +91,8 @@ type Config struct {
 	Listeners  int                 // UDP listeners of the service, all served by the same handler (default 1)
 	SlowRemove time.Duration       // every removal report takes this long (virtual time)
 	ViaManager bool                // the handler reads from a listener-manager handle (shared socket), as in the server
+	DualStack  bool                // the proxy listens on [::]:9000 (IPv4 and IPv6 clients); IPv6 clients send to [::1]:9000
+	KeepOther  bool                // with ViaManager: somebody else holds a second handle on the proxy address until the very end
 	AutoReply  []int               // targets (by index) that answer every datagram at once by themselves (a thread of their own)
 }
 
@@ -138,6 +140,10 @@ func Run(cfg Config, ops []Op, tr *Trace) {
 	w := world.NewUDP(cfg.Keys, cfg.NatTimeout, real)
 	w.Rec.SlowRemove = cfg.SlowRemove
 	w.ViaManager = cfg.ViaManager
+	w.KeepOther = cfg.KeepOther
+	if cfg.DualStack {
+		w.Addr = "[::]:9000"
+	}
 	if cfg.Validator == "allow-all" {
 		w.H.SetTargetIPValidator(func(net.IP) error { return nil })
 	}
@@ -349,7 +355,11 @@ func Run(cfg Config, ops []Op, tr *Trace) {
 			}
 			st.Sent, st.Plain, st.Dst = wire, payload, dst
 			sock := w.Sock(Clients[op.C])
-			sock.SendRaw(wire, proxies[op.L%len(proxies)])
+			to := proxies[op.L%len(proxies)]
+			if cfg.DualStack && world.UDPAddr(Clients[op.C]).IP.To4() == nil {
+				to = &net.UDPAddr{IP: net.IPv6loopback, Port: to.Port}
+			}
+			sock.SendRaw(wire, to)
 			observe(st, c)
 		case "R", "X":
 			u := natSock[op.C]
@@ -393,6 +403,7 @@ func Run(cfg Config, ops []Op, tr *Trace) {
 	if !stopped {
 		w.Stop()
 	}
+	w.CloseOther()
 	observe(final, -1)
 	tr.Steps = append(tr.Steps, final)
 	tr.Open = vw.OpenSockets("srv")
